@@ -635,11 +635,33 @@ class Interp(InterpBase):
                 elif isinstance(t, ast.Subscript):
                     c = self.eval(t.value, frame)
                     k = self.eval(t.slice, frame)
-                    if isinstance(c, (list, dict)) and (is_native(k) or isinstance(c, dict)):
+                    if isinstance(c, dict):
+                        key = self.dict_key(c, _hashable(k))
+                        if key is _MISSING:
+                            if self.opened(c) is not None and self.decide(self.member_atom(self.opened(c), k)):
+                                self.opened(c).epoch += 1
+                                continue
+                            raise Raised(None, "KeyError")
+                        del c[key]
+                        if self.opened(c) is not None:
+                            self.opened(c).epoch += 1
+                    elif isinstance(c, list) and self.opened(c) is None and isinstance(k, (int, slice)) and not isinstance(k, bool):
                         try:
                             del c[k]
-                        except (KeyError, IndexError) as e:
-                            raise Raised(None, type(e).__name__)
+                        except IndexError:
+                            raise Raised(None, "IndexError")
+                    elif isinstance(c, list) and self.opened(c) is not None:
+                        self.opened(c).epoch += 1  # some element goes: which one is not known
+                    elif isinstance(c, (Term, Seq, list)) and isinstance(t.value, (ast.Name, ast.Attribute)):
+                        # `del xs[k:]` / `del xs[:k]` on a sequence only known as a term: the variable now holds what is left
+                        lo, hi, st = (k.start, k.stop, k.step) if isinstance(k, slice) else k.args if isinstance(k, App) and k.fn == "slice" else (0, 0, 0)
+                        if st is None and hi is None and lo is not None:
+                            left = self.subscript(c, App("slice", (None, lo, None)) if isinstance(lo, Term) else slice(None, lo), s, frame)
+                        elif st is None and lo is None and hi is not None:
+                            left = self.subscript(c, App("slice", (hi, None, None)) if isinstance(hi, Term) else slice(hi, None), s, frame)
+                        else:
+                            left = App("without", (_h(c), _h(k)))
+                        self.assign(t.value, left, frame)
                     else:
                         raise Unsupported("del of a symbolic subscript", s, fi)
                 elif isinstance(t, ast.Attribute):
